@@ -33,9 +33,9 @@ def _probe_flag(flag):
     return not c.hit
 
 
-def prove(ctx, modules):
+def prove(ctx, modules, extra_msgs=()):
     from ..translate import enums
-    msgs = [schedflags.generate(common.REPO, common.LEAN, probe=_probe_flag), enums.generate(common.REPO, common.LEAN)]
+    msgs = [schedflags.generate(common.REPO, common.LEAN, probe=_probe_flag), enums.generate(common.REPO, common.LEAN)] + list(extra_msgs)
     ctx.notes.append(f"translator(schedflags): {msgs[0][1]}")
     ctx.notes.append(f"translator(enums): {msgs[1][1]}")
     # source obligations on JobState / DependencyStatus (Properties/SchedSrc.lean) belong to every scheduler property
